@@ -4,29 +4,32 @@
 # applied, WITHOUT touching /repo or /verif: each run gets a private mount namespace in which the worktree is
 # bind-mounted over /repo and a copy of /verif (committed + working files, no build output) over /verif.
 # Several runs may go on at once (-j). One line per change on stdout; logs in /verif/.build/logs/regress.<id>.log.
+# An argument ending in .diff is taken as a patch file (PROPS must be given); ONLY=<regex> is passed as --only.
 # `PROPS="C07 C11" regress_ns.sh C07-2` runs the checks of other properties than the one in meta.json.
 J=3; K=5
 while getopts "j:k:" o; do case $o in j) J=$OPTARG;; k) K=$OPTARG;; esac; done; shift $((OPTIND-1))
 ROOT=/tmp/rg; mkdir -p $ROOT /verif/.build/logs
 one() {
-  D=$1; W=$ROOT/$D
+  D=$1; PATCH=/verif/seeded/$D/patch.diff
+  case "$D" in *.diff) PATCH=$D; D=$(basename $D .diff);; esac
+  W=$ROOT/$D
   P=${PROPS:-$(python3 -c "import json;print(json.load(open('/verif/seeded/$D/meta.json'))['property'])" 2>/dev/null)}
   rm -rf $W; mkdir -p $W
   git -C /repo worktree add -q --detach $W/repo HEAD 2>/dev/null || { echo "$D: worktree failed"; return; }
   cp /repo/Cargo.lock $W/repo/Cargo.lock
   if [ "$D" != "NONE" ]; then
-    git -C $W/repo apply /verif/seeded/$D/patch.diff || { echo "$D: PATCH DOES NOT APPLY"; git -C /repo worktree remove --force $W/repo; return; }
+    git -C $W/repo apply $PATCH || { echo "$D: PATCH DOES NOT APPLY"; git -C /repo worktree remove --force $W/repo; return; }
   fi
   rsync -a --exclude .build --exclude .git /verif/ $W/verif/
   s=$(date +%s)
   for p in $P; do
-    unshare -m sh -c "mount --bind $W/repo /repo && mount --bind $W/verif /verif && cd /verif && VERIF_JOBS=$K ./check $p --quick --no-evidence" > /verif/.build/logs/regress.$D.$p.log 2>&1
+    unshare -m sh -c "mount --bind $W/repo /repo && mount --bind $W/verif /verif && cd /verif && VERIF_JOBS=$K ./check $p --quick --no-evidence ${ONLY:+--only '$ONLY'}" > /verif/.build/logs/regress.$D.$p.log 2>&1
     rc=$?
     L=/verif/.build/logs/regress.$D.$p.log
     echo "$D $p rc=$rc $(( $(date +%s) - s ))s $(grep -c '^\[ *failed' $L) failed :: $(grep -h '^VIOLATION\|^KNOWN-FINDING' $L | cut -c1-140 | tr '\n' ';') $(tail -1 $L | cut -c1-150)"
   done
   git -C /repo worktree remove --force $W/repo; rm -rf $W
 }
-export -f one; export ROOT K PROPS
+export -f one; export ROOT K PROPS ONLY
 printf '%s\n' "$@" | xargs -P $J -I{} bash -c 'one {}'
 git -C /repo worktree prune
